@@ -107,6 +107,22 @@ pub fn generate(ctx: &mut Ctx) {
         script.push(encode_range(&BigInt::one(), n, &BigInt::from(2)));
         do_isprime(ctx, "isprime.s", n, "c", script);
     }
+    // large composites (all size classes): j liar bases (1, n-1) followed by witnesses (2): must be
+    // rejected for every j < 20, i.e. the test really performs 20 independent rounds at every size
+    let bigs: Vec<BigInt> = {
+        let m = |e: u32| (BigInt::one() << e) - 1;
+        vec![m(61) * m(31), m(89) * m(61), m(89) * m(107), m(127) * m(107), m(127) * m(521), m(521) * m(607)]
+    };
+    for n in &bigs {
+        for j in [0usize, 1, 2, 3, 5, 6, 7, 11, 12, 13, 19] {
+            let mut script = vec![];
+            for i in 0..20 {
+                let v = if i < j { if i % 2 == 0 { BigInt::one() } else { n - 1 } } else { BigInt::from(2) };
+                script.push(encode_range(&BigInt::one(), n, &v));
+            }
+            do_isprime(ctx, "isprime.s", n, "c", script);
+        }
+    }
     // primes with scripted bases 1, n-1, and arbitrary: must be accepted whatever is drawn
     for p in [3u64, 5, 7, 13, 8191, 2147483647, 2305843009213693951] {
         let n = BigInt::from(p);
